@@ -16,6 +16,7 @@ Undecided: run-time equality of outputs (functional).
 """
 import glob
 import os
+import subprocess
 import re
 
 from . import effects, facts, ir, ptr, repo, witness
@@ -89,6 +90,8 @@ def rule_witness(rep, build, tier):
                 where = "%s:%d" % (fn if fn.startswith(repo.REPO) else "<witness>", ln)
                 rep.violation(rid, _norm_member(member), where,
                               "does not compile when used: %s (%s)" % (msg, member), config=cname)
+            if comp == "clang++" and rc == 0:
+                rule_container_lengths(rep, build, src, outdir, extra, cname, "-ir-%d" % no_stl)
             bad_members = set(_norm_member(m) for _, _, _, m in errs)
             good = w.count - len(bad_members)
             rep.instance(rid, max(good, 0), {"config": cname, "uses": w.count,
@@ -98,8 +101,129 @@ def rule_witness(rep, build, tier):
     rep.extra["witness_members"] = total
 
 
+PTR_ACCESSORS = re.compile(r"::(data|c_str|begin|cbegin|operator\[\]|front)\(")
+LEN_ACCESSORS = re.compile(r"::(size|length)\(\) const$")
+CONTAINERS = re.compile(r"^(std::(__cxx11::)?basic_string<|std::vector<|ascon::byte_array)")
+
+
+def rule_container_lengths(rep, build, src, outdir, extra, cname, tag):
+    """D2s: a member that receives a sized container (std::string, byte_array)
+    and hands its bytes to another function passes the container's own size
+    with them.  A pointer obtained from X.data() / X.c_str() that travels to a
+    callee without a value derived from X.size() in the same call lets the
+    callee measure the data itself (strlen), which truncates at an embedded NUL
+    and so differs from the C function called with (data, size)."""
+    rid = "C17.D2s"
+    rep.rule(rid, "container overloads forward (data, size) of the same container")
+    js, err = witness.lower_witness(src, build, outdir, extra=extra, tag=tag)
+    if js is None:
+        rep.broken.append("%s: the witness did not lower to IR under clang++ (%s)" % (rid, err.strip().splitlines()[-1][:160] if err.strip() else ""))
+        return
+    n = container_lengths_module(rep, ir.Module.load(js), cname)
+    if n < 4:
+        rep.broken.append("%s: only %d container-forwarding call(s) found in %s" % (rid, n, cname))
+
+
+def container_lengths_module(rep, m, cname):
+    rid = "C17.D2s"
+    names = sorted(set(f.name for f in m.funcs.values() if f.name.startswith("_Z")))
+    dem = {}
+    if names:
+        out = subprocess.run(["llvm-cxxfilt-14"], input="\n".join(names).encode(), stdout=subprocess.PIPE).stdout.decode().splitlines()
+        dem = dict(zip(names, out))
+    n = 0
+    for f in m.defined():
+        d = dem.get(f.name, "")
+        if not d.startswith("ascon::") or not f.srcfile.startswith(repo.REPO):
+            continue
+        uses = None
+        # accessor results per container object (the `this` argument of the accessor)
+        ptrs, lens = {}, {}
+        for c in f.calls():
+            cd = dem.get(c.callee or "", "")
+            if not cd or not CONTAINERS.match(cd) or not c.ops:
+                continue
+            obj = c.ops[0]
+            # only containers the member received from its caller (reference parameters); a container the
+            # member builds itself (a result sized from a length argument) is measured by construction
+            if obj not in f.params or "sret" in " ".join(f.param_attrs[f.params.index(obj)] or ()):
+                continue
+            if not _is_const_ref_param(d, f, obj):
+                continue          # an output container: sized by the member itself
+            if PTR_ACCESSORS.search(cd):
+                ptrs.setdefault(obj, []).append(c)
+            elif LEN_ACCESSORS.search(cd):
+                lens.setdefault(obj, []).append(c)
+        if not ptrs:
+            continue
+        for c in f.calls():
+            cd = dem.get(c.callee or "", c.callee or "")
+            if CONTAINERS.match(cd) or (c.callee or "").startswith("llvm."):
+                continue
+            for obj, pcs in ptrs.items():
+                passed = [a for a in c.ops if isinstance(a, str) and any(_derived_from(f, a, pc.id) for pc in pcs)]
+                if not passed:
+                    continue
+                n += 1
+                sized = any(isinstance(a, str) and any(_derived_from(f, a, lc.id) for lc in lens.get(obj, []))
+                            for a in c.ops)
+                if sized:
+                    rep.instance(rid, 1, {"config": cname, "member": d, "callee": cd})
+                else:
+                    rep.violation(rid, "%s->%s" % (_norm_member(d), re.sub(r"\(.*$", "", cd)), c.where(),
+                                  "%s hands the bytes of its container argument to %s without the container's size(): the "
+                                  "callee has to measure the data itself, so a value with an embedded NUL byte is truncated and "
+                                  "the result differs from the C function called with (data, size)" % (d, cd), config=cname)
+    return n
+
+
+def _split_params(dem):
+    """parameter type strings of a demangled function name"""
+    depth, start, k = 0, None, None
+    # find the parameter list: the last top-level (...) group
+    close = dem.rfind(")")
+    if close < 0:
+        return []
+    depth = 0
+    for k in range(close, -1, -1):
+        if dem[k] == ")":
+            depth += 1
+        elif dem[k] == "(":
+            depth -= 1
+            if depth == 0:
+                start = k
+                break
+    if start is None:
+        return []
+    inner = dem[start + 1:close]
+    out, cur, da = [], "", 0
+    for ch in inner:
+        if ch in "<(":
+            da += 1
+        elif ch in ">)":
+            da -= 1
+        if ch == "," and da == 0:
+            out.append(cur.strip())
+            cur = ""
+        else:
+            cur += ch
+    if cur.strip():
+        out.append(cur.strip())
+    return [] if out == ["void"] else out
+
+
+def _is_const_ref_param(dem, f, obj):
+    tys = _split_params(dem)
+    k = f.params.index(obj)
+    # IR parameters = [sret slot] + [this] + declared parameters
+    off = len(f.params) - len(tys)
+    if off < 0 or k < off:
+        return False
+    return tys[k - off].endswith("const&")
+
+
 def _norm_member(m):
-    m = re.sub(r"<\d+>", "<N>", m)
+    m = re.sub(r"<\d+(ul|u|l)?>", "<N>", m)
     m = re.sub(r" with \d+ argument\(s\)", "", m)
     return m
 
@@ -162,6 +286,8 @@ def rule_forwarding_and_keying(rep, build, tier):
     api = facts.public_c_api(build)
     lay = effects.Layouts(m)
     init = effects.wipe_summaries(m, mode="init")
+    if container_lengths_module(rep, m, "lib/" + build.cfg.name) < 6:
+        rep.broken.append("C17.D2s: fewer than 6 container-forwarding calls in the library's C++ units")
     for f in m.defined():
         dm = demangle_method(f.name)
         if dm is None:
@@ -243,7 +369,7 @@ def _derived_from(f, a, want, depth=0):
     d = f.defs.get(a)
     if d is None:
         return False
-    if d.op in ("zext", "sext", "trunc", "bitcast"):
+    if d.op in ("zext", "sext", "trunc", "bitcast", "getelementptr"):
         return _derived_from(f, d.ops[0], want, depth + 1)
     return False
 
